@@ -118,6 +118,9 @@ def generate(R, tier):
             j = R.randrange(len(pkts))
             if r < 0.08:
                 ops.append({"op": "load", "file": R.randrange(2)})
+                if R.random() < 0.4:
+                    # the caller adds a record through the public add(), then loads the SAME unchanged file again: load() replaces whatever the object holds
+                    ops.append({"op": "reload_after_add"})
             elif r < 0.5:
                 ty = pkts[j][2]
                 ops.append({"op": "tcp", "pkt": j, "syn_mss": R.choice([0, 0, pkts[j][1]["syn_mss"], 1380, 1460]) if ty == 0x12 else R.choice([0, 1460]),
@@ -151,6 +154,7 @@ def model_line(c):
     pk = [dict(sp) for sp in c["pkts"]]          # the packets as they are NOW (in-place edits by the caller are applied in order)
     c = dict(c, pkts=pk)
     sh = {}                                       # the parsed Packet objects the caller keeps, as they are NOW
+    cur_file = None
     for o in c["ops"]:
         if o["op"] == "edit":
             pk[o["pkt"]]["win"] = o["win"]
@@ -178,7 +182,14 @@ def model_line(c):
             continue
         if o["op"] == "load":
             f = c["files"][o["file"]]
+            cur_file = o["file"]
             toks.append("0 %d %s" % (len(f), " ".join(c09.hexline(l) for l in f)))
+        elif o["op"] == "reload_after_add":
+            if cur_file is None:
+                toks.append("4")
+            else:
+                f = c["files"][cur_file]
+                toks.append("0 %d %s" % (len(f), " ".join(c09.hexline(l) for l in f)))
         elif o["op"] == "tcp":
             spec = c["pkts"][o["pkt"]]
             toks.append("1 %d %d %d %s" % (o["md"], o["syn_mss"], W.full(spec)["v"], W.build(spec).hex()))
@@ -214,6 +225,7 @@ def impl_init():
         shared = {}
         bufs = {}
         out = []
+        loaded = [False]
         path = os.path.join(work, "c16-%d.fp" % os.getpid())
         for o in c["ops"]:
             try:
@@ -221,7 +233,24 @@ def impl_init():
                     with open(path, "w", encoding="utf-8", newline="") as f:
                         f.write("\n".join(c["files"][o["file"]]) + "\n")
                     db.load(path)
-                    out.append({"load": True})
+                    loaded[0] = True
+                    out.append({"load": True, "len": len(db)})
+                elif o["op"] == "reload_after_add":
+                    if not loaded[0]:
+                        out.append(None)
+                    else:
+                        import copy as _copy
+                        from pyp0f.database.records import HTTPRecord, MTURecord, TCPRecord
+                        from pyp0f.net.packet import Direction
+                        for cls, d in ((TCPRecord, Direction.CLIENT_TO_SERVER), (TCPRecord, Direction.SERVER_TO_CLIENT), (MTURecord, None), (HTTPRecord, Direction.CLIENT_TO_SERVER)):
+                            try:
+                                vals = list(db.iter_values(cls, d))
+                                if vals:
+                                    db.add(_copy.copy(vals[0]), d)
+                            except DatabaseError:
+                                pass
+                        db.load(path)          # the file itself has not been touched since it was loaded
+                        out.append({"load": True, "len": len(db)})
                 elif o["op"] in ("tcp", "mtu"):
                     j = o["pkt"]
                     if o["mode"] == "raw":
@@ -318,6 +347,13 @@ def judge(c, ir, mr):
     for k, (a, b) in enumerate(zip(ir, mr)):
         if c["ops"][k]["op"] == "load":
             cur = c["files"][c["ops"][k]["file"]]
+        if isinstance(a, dict) and "len" in a:
+            n = a["len"]
+            a = {x: y for x, y in a.items() if x != "len"}
+            want = sum(1 for l in (cur or []) if l.startswith("sig"))
+            if a == b and cur is not None and n != want:
+                return {"kind": "after load() the database does not hold exactly the records of the file (records added in memory before survived the load, or the load was skipped)",
+                        "why": "op %d %s: len(db) = %d, the file has %d sig lines" % (k, c["ops"][k], n, want), "judged_by": "C16_history + C11_no_accumulation"}
         if isinstance(a, dict) and "lab" in a:
             got = a["lab"]
             a = {x: y for x, y in a.items() if x != "lab"}
